@@ -15,6 +15,7 @@ from . import hirq as H
 from . import tables as T
 from . import wire as W
 from .engine import VERIF
+from .oblig_mono import Reach
 
 LEVEL = "other"
 
@@ -63,3 +64,18 @@ def run(ctx):
                        "%s: a recognised name is not stored into any member (%s)" % (path, tab["orphan_names"]), cfg=cfg, where=where, nontrivial=False)
             ctx.sample({"cfg": cfg, "type": path, "unknown_name": tab["unknown"], "unknown_value_consumed": tab["ignore_consumes"], "known": [m["key"] for m in tab["members"]]}, limit=14)
         ctx.floor("host map types", n, 7, cfg=cfg)
+        # every map visitor that can run while decoding a request is a derive-generated one (whose unknown-member arm was
+        # checked above / is index-strict by design): a hand-written visit_map is unaudited and could stop consuming its map early
+        r = F.mono_root("ctap2::Request::<'a>::deserialize")
+        if ctx.oblige("C06|root", r is not None and "inst" in r, "anchor missing: mono root Request::deserialize", cfg=cfg, nontrivial=False):
+            R = Reach(F, r["inst"])
+            vms = [i for i in R.local if i["def"].endswith("::visit_map")]
+            ctx.floor("map visitors on the decode path", len(vms), 14, cfg=cfg)
+            for i in vms:
+                pv = i.get("pv") or ""
+                ctx.oblige("C06|derived-visit_map|" + i["def"][:120], pv in ("derive:Deserialize", "derive:DeserializeIndexed"),
+                           "a hand-written map visitor is used while decoding requests (%s): whether it consumes every member of its map is not audited" % i["def"][:140], cfg=cfg, where=i.get("sp"))
+            # the text-keyed host types are the ones actually used: each of the 7 derive decoders is reachable
+            reach_defs = " ".join(i["def"] for i in R.local)
+            for path in hosts:
+                ctx.oblige("C06|used|" + path, ("for %s" % path) in reach_defs or ("for %s<" % path) in reach_defs, "%s's derive-generated decoder is not the one used on the decode path any more" % path, cfg=cfg)
